@@ -37,6 +37,10 @@ Targets(kind, format) ==
     [] kind = "to_device" -> {"AnyToDeviceEvent"}
     [] OTHER -> {}
 
+\* documented alias spellings (unstable names of since-stabilised types) and their canonical spelling
+AliasTable == [x \in {"org.matrix.call.sdp_stream_metadata_changed"} |-> "m.call.sdp_stream_metadata_changed"]
+CanonicalOf(t) == IF t \in DOMAIN AliasTable THEN AliasTable[t] ELSE t
+
 \* one observation r of deserializing an event into a target enum
 Dispatch(r) ==
   /\ r.target \in Targets(r.kind, r.format)
@@ -45,7 +49,8 @@ Dispatch(r) ==
   \* specification: whether it gets the dedicated variant is left open, everything else must still hold for it
   /\ (r.alias \/ (r.known <=> IsKnown(r.kind, r.type, r.wildcard)))
   /\ (r.redacted_out <=> (r.redacted_in /\ Redactable(r.kind))) \* unsigned.redacted_because -> redacted variant
-  /\ (r.alias \/ r.type_out = r.type)                           \* the type string survives (wildcard suffix included)
+  /\ IF r.alias THEN r.type_out \in {r.type, CanonicalOf(r.type)}   \* an alias comes back as itself or as its canonical spelling
+                ELSE r.type_out = r.type                       \* the type string survives (wildcard suffix included)
   /\ r.acc_ok                                                   \* sender, ids, timestamp, state key as in the JSON
 ContentLaws(r) ==
   r.hascontent => (r.fix_ok /\ r.nodup /\ r.subsumes /\ r.order_indep)
